@@ -90,7 +90,7 @@ def execCmd : Handler := fun j => do
     match st.env v with
     | some (some x) => Json.arr #[putNat v.kind, putInt v.seq, putInt x.1, putInt x.2]
     | _ => Json.arr #[putNat v.kind, putInt v.seq, Json.null, Json.null]
-  pure <| Json.mkObj [("rows", Json.arr rows.toArray), ("exec_hyp", Json.bool (execHypOk i)),
+  pure <| Json.mkObj [("rows", Json.arr rows.toArray), ("exec_hyp", Json.bool (execHypOk i)), ("valid_in", Json.bool (validInOk (xWins i) (xTrace i).flatten)),
                       ("sized", Json.bool (kindsOk i sizes.length && sizedOk (traceOf i 0) sizes.length sizes))]
 
 def handlers : List (String × Handler) := [("sched.check", check), ("sched.replay", replay), ("sched.bufsize", bufsize), ("sched.exec", execCmd)]
